@@ -160,6 +160,9 @@ class Worker(object):
 
     def finish(self, run, trace, nodes, node):
         prop = run["prop"]
+        if prop == "IO":
+            trace["digest"] = node(0).call("digest", "public", E.PUBLIC_GROUPS, self.canon_hashes, False)
+            return
         if prop == "C09":
             n = node(0)
             d1 = n.call("digest", "public", E.PUBLIC_GROUPS, self.canon_hashes, False)
